@@ -101,6 +101,9 @@ class Driver:
         if not out:
             raise RuntimeError("driver died on request: " + line[:200])
         self.n += 1
+        if os.environ.get("VERIF_ASKLOG"):                      # debugging aid
+            with open(os.environ["VERIF_ASKLOG"], "a") as f:
+                f.write(line + "\n=> " + out)
         return out.rstrip("\n")
 
     def close(self):
